@@ -105,9 +105,11 @@ theorem removal_flags :
     method_missing_values.lookup "states_remove_unused" = some "False" ∧
     method_scheme.lookup "states_remove_unused" = some "False" := by decide +kernel
 
-/-- C20: the substitution bound the model's `rhsMatrix` is instantiated with. -/
+/-- C20: `rhs_matrix` substitutes until no intermediate is left, at most (number of
+intermediates + 1) times by default, and raises only if intermediates are still present. -/
 theorem max_tries_shape :
-    maxTriesDefault = 20 ∧ maxTriesRaise = ["num_tries == max_tries"] ∧
+    maxTriesDefault = "None" ∧ maxTriesBound = ["len(intermediates) + 1"] ∧
+    maxTriesRaise = ["any([rhs.has(k) for k in intermediates.keys()])"] ∧
     maxTriesWhile = ["any([rhs.has(k) for k in intermediates.keys()]) and num_tries < max_tries"] := by decide +kernel
 
 /-- C17: only these exception classes are caught around the unit parser. -/
@@ -116,6 +118,11 @@ theorem unit_caught : unitCaught = ["units.pint.UndefinedUnitError", "AttributeE
 /-- C11: the writer's relation names. `Ne` is *not* a name the grammar has (see `grammar_names`). -/
 theorem relop_table :
     relop2str = [("<", "'Lt'"), ("<=", "'Le'"), (">", "'Gt'"), (">=", "'Ge'"), ("==", "'Eq'"), ("!=", "'Ne'")] := by decide +kernel
+
+/-- C11: the writer spells `exp(1)` itself (sympy's `E` is not in the grammar) -/
+theorem writer_overrides : odePrinterMethods.contains "_print_Exp1" = true ∧ odePrinterMethods.contains "_print_Relational" = true ∧
+    odePrinterMethods.contains "_print_Piecewise" = true ∧ odePrinterMethods.contains "_print_And" = true ∧
+    odePrinterMethods.contains "_print_Or" = true := by decide +kernel
 
 /-- C18: keyword arguments `ode2py` forwards to `gotran2py.main`, and `main` to `get_code`. -/
 theorem cli_ode2py_forwarding :
